@@ -260,6 +260,11 @@ def _consts_compared(f, var=None):
     return out
 
 
+def is_in_loop(node, lp):
+    from ..cfg import is_within
+    return is_within(node, lp)
+
+
 def r3(ctx):
     orit = ctx.func("core/iterators.py:__or__.or_iterator.__iter__")
     produced = set()
@@ -306,33 +311,26 @@ def r3(ctx):
         lp.target, ast.Tuple) and isinstance(lp.target.elts[1], ast.Tuple) else []
     ctx.require(len(names) == 3, "C12.R3: __eq__ loop target not (c, (mask, a, b))")
     mask, pa, pb = names
-    rejects = {}
-    for st in lp.body:
-        if isinstance(st, ast.If) and len(st.body) == 1 and \
-                isinstance(st.body[0], ast.Return) and \
-                text(st.body[0].value) == "False":
-            cj = pat.conjuncts(st.test)
-            key = []
-            for t, pol in cj:
-                p = pat.cmp_raw(t, pol)
-                if p:
-                    key.append(p)
-            rejects[tuple(sorted(key))] = st
-    need = {
-        (("==", mask, "'A'"),): "an element only in self",
-        (("==", mask, "'B'"),): "an element only in other",
-        tuple(sorted([("==", mask, "'AB'"), ("!=", pa, pb)])): "unequal payloads",
-    }
-    alt = {tuple(sorted([("==", mask, "'AB'"), ("!=", pb, pa)])): "unequal payloads"}
-    for k, what in need.items():
-        hit = rejects.get(k)
-        if hit is None and what == "unequal payloads":
-            hit = rejects.get(list(alt)[0])
-        if hit is None and what == "unequal payloads":
-            # `if ps != po: return False` without the mask conjunct is also sound
-            hit = rejects.get((("!=", pa, pb),)) or rejects.get((("!=", pb, pa),))
-        if hit is not None:
-            ctx.ok("C12.R3", f, hit, "returns False for %s" % what)
+    from ..cfg import atomic_guards
+    rejects = []
+    for r in pat.returns(f):
+        if text(r.value) == "False" and r in list(_walk(lp.body)):
+            g_ = {pat.catom(ctx, f, t, pol, False) for t, pol in atomic_guards(r, stop=lp)}
+            # `mask != <other literal>` atoms are implied by the chain position
+            core = {a for a in g_ if not (a[0] == "!=" and mask in a[1:] and
+                                          any(x.startswith("'") for x in a[1:]))}
+            rejects.append((core, r))
+    need = [
+        ([{pat.A("==", mask, "'A'")}], "an element only in self"),
+        ([{pat.A("==", mask, "'B'")}], "an element only in other"),
+        ([{pat.A("==", mask, "'AB'"), pat.A("!=", pa, pb)}, {pat.A("!=", pa, pb)}],
+         "unequal payloads"),
+    ]
+    for alts, what in need:
+        hit = [r for core, r in rejects if core in alts]
+        if hit:
+            ctx.ok("C12.R3", f, hit[0], "returns False for %s" % what,
+                   text_="__eq__ rejects %s" % what)
         else:
             ctx.bad("C12.R3", f, lp, "Fiber.__eq__ does not return False for %s: "
                     "fibers that differ that way compare equal, which weakens "
@@ -350,12 +348,11 @@ def r3(ctx):
                 "True before all elements were compared",
                 text_="__eq__ returns True early")
     nf = False
-    for st in f.body:
-        if isinstance(st, ast.If) and text(st.test).replace(" ", "") == \
-                "notisinstance(%s,Fiber)" % other and \
-                any(isinstance(b, ast.Return) and text(b.value) == "False"
-                    for b in st.body):
-            nf = True
+    for r in pat.returns(f):
+        if text(r.value) == "False" and not is_in_loop(r, lp):
+            g_ = {pat.catom(ctx, f, t, pol, False) for t, pol in atomic_guards(r)}
+            if g_ == {pat.T("isinstance(%s, Fiber)" % other, False)}:
+                nf = True
     if nf:
         ctx.ok("C12.R3", f, f.body[0], "a non-fiber never equals a fiber",
                text_="__eq__ non-fiber")
